@@ -8,7 +8,10 @@ case = {'side': 'client'|'server', 'api': 'data'|'message', 'lens': [int,...],
   cw0      the connection window the senders start with (below 65535: an extra 'burner' stream uses up
            the difference first; above: a connection WINDOW_UPDATE)
   mf0      the peer's SETTINGS_MAX_FRAME_SIZE
-  ops      ws i k | wc k | iw v | mf m | p | r | q | qp k     (see ocaml/dC07.ml)
+  ops      ws i k | wc k | iw v | mf m | p | r | q | qp k | rst | rp     (see ocaml/dC07.ml)
+           rst = Stream.reset_nowait() on one of NVICTIMS extra open streams of the connection (another
+                 call being cancelled); rp = the transport resumes and pauses again from inside the first
+                 write() that follows (the flush of Connection.resume_writing, if h2 has something queued)
 The wiring copies harness.wire.ClientEnd / ServerEnd (which create their peer with auto_ack=True).
 """
 import asyncio
@@ -24,6 +27,7 @@ from harness.peer import Peer, REQ_HEADERS
 from harness.svc import RawCodec, Service
 from harness.wire import MemTransport
 
+NVICTIMS = 4
 LIVELOCK_LIMIT = 1000        # a legitimate segment has at most len/16384 + 2 iterations per sender
 
 
@@ -69,6 +73,7 @@ class Rig:
         self.finished = [False] * self.n
         self.errors = [None] * self.n
         self.sid_index = {}
+        self.victims = []                     # protocol.Stream objects of the extra calls
         self.calls = 0
         self.setup_error = None
 
@@ -129,6 +134,12 @@ class Rig:
                     self.burned = True
                     await self.park.wait()
 
+            async def victim():
+                async with method.open() as s:
+                    await s.send_request()
+                    self.victims.append(s._stream)
+                    await self.park.wait()
+
             async def sender(i):
                 async with method.open() as s:
                     await s.send_request()
@@ -148,6 +159,8 @@ class Rig:
                                 SettingCodes.MAX_FRAME_SIZE: self.case['mf0']})
             if grant:
                 self.peer.window_update(0, grant)
+            for _ in range(NVICTIMS):
+                self.aux.append(loop.create_task(victim()))
             for i in range(self.n):
                 self.aux.append(loop.create_task(sender(i)))
             loop.run_quiet(1.0)
@@ -160,6 +173,9 @@ class Rig:
                 if kind == 'burn':
                     await stream._stream.send_data(b'\x55' * burn)
                     self.burned = True
+                    await self.park.wait()
+                elif kind == 'victim':
+                    self.victims.append(stream._stream)
                     await self.park.wait()
                 else:
                     await self._sender_body(kind, stream._stream, stream)
@@ -182,13 +198,17 @@ class Rig:
                                 SettingCodes.MAX_FRAME_SIZE: self.case['mf0']})
             if grant:
                 self.peer.window_update(0, grant)
+            for _ in range(NVICTIMS):
+                kinds.append('victim')
+                self.peer.request(REQ_HEADERS)
             for i in range(self.n):
                 kinds.append(i)
                 sid = self.peer.request(REQ_HEADERS)
                 self.sid_index[sid] = i
             loop.run_quiet(1.0)
         self.conn = self.proto.connection
-        if not self.burned or any(t is None for t in self.tasks) or self.peer.violations:
+        if not self.burned or any(t is None for t in self.tasks) or self.peer.violations or \
+                len(self.victims) != NVICTIMS:
             self.setup_error = 'setup incomplete: burned=%r tasks=%r violations=%r' % (
                 self.burned, [t is not None for t in self.tasks], self.peer.violations)
         self.peer.take_events()
@@ -237,7 +257,7 @@ def run_case(case):
     """Returns a dict: 'records' (one per q/qp: what the model prints), 'frames' (every DATA frame in
     arrival order with the op index after which it arrived), 'violations', 'final' ..."""
     obs = {'records': [], 'frames': [], 'violations': [], 'setup_error': None, 'status': [],
-           'exceptions': [], 'unhandled': 0}
+           'exceptions': [], 'unhandled': 0, 'repaused': 0}
     with vloop.session() as loop:
         rig = Rig(loop, case)
         try:
@@ -268,6 +288,15 @@ def run_case(case):
                     rig.transport.pause()
                 elif tok == 'r':
                     rig.transport.resume()
+                elif tok == 'rst':
+                    rig.victims.pop(0).reset_nowait()
+                elif tok == 'rp':
+                    was = rig.transport.paused
+                    rig.transport.countdown = 1
+                    rig.transport.resume()
+                    rig.transport.countdown = None
+                    if was and rig.transport.paused:
+                        obs['repaused'] += 1
                 elif tok in ('q', 'qp'):
                     rig.transport.countdown = op[1] if tok == 'qp' else None
                     loop.run_quiet(1.0)
@@ -289,7 +318,8 @@ def run_case(case):
                 obs['records'].append({
                     'chunks': pending_frames, 'pcs': rig.pcs(), 'cw': cw, 'sws': sws, 'mf': mf,
                     'wr': rig.conn.write_ready.is_set(), 'paused': rig.transport.paused, 'op': k,
-                    'paused_before': paused_before, 'outside': outside})
+                    'paused_before': paused_before, 'outside': outside,
+                    'hq': bool(rig.h2c._data_to_send)})
                 pending_frames = []
                 outside = 0
         obs['violations'] = [type(v).__name__ for v in peer.violations]
